@@ -142,8 +142,12 @@ def truth(v: AV) -> bool:
         if v.items is None:
             raise Unknown('truth of a list of unknown length')
         return bool(v.items)
+    if k == 'other' and isinstance(v.val, tuple) and v.val[0] == 'py':
+        return bool(v.val[1])
     if k in ('date', 'datetime', 'func', 'other', 'obj', 'regex'):
         return True
+    if k in ('dict', 'set') and v.items is not None:
+        return bool(v.items)
     raise Unknown(f'truth of {k}')
 
 
@@ -155,6 +159,8 @@ def to_int(v: AV) -> AV:
         return AV('int', sign=v.sign, val=int(v.val) if v.val is not None else None, origin=v.origin)
     if k == 'blank':
         return AV('int', sign='zero', val=0, origin=v.origin)
+    if k == 'float' and isinstance(v.val, float) and v.val == v.val and abs(v.val) != float('inf'):
+        return replace(const_av(int(v.val)), prec='truncated' if v.val != int(v.val) else v.prec, origin=v.origin)
     if k == 'float':
         return AV('int', sign=v.sign if not v.frac else None, prec='truncated' if v.frac else v.prec, origin=v.origin)
     if k == 'str':
@@ -168,6 +174,8 @@ def to_float(v: AV) -> AV:
     k = v.kind
     if k == 'float':
         return v
+    if k in ('int', 'bool') and isinstance(v.val, int) and abs(v.val) < 10 ** 300:
+        return replace(const_av(float(v.val)), prec='truncated' if float(v.val) != v.val else v.prec, origin=v.origin)
     if k in ('int', 'bool', 'blank'):
         return AV('float', sign='zero' if k == 'blank' else v.sign, frac=False, prec=v.prec, origin=v.origin)
     if k == 'str':
@@ -513,6 +521,34 @@ class Evaluator:
     def obj_attrs(self, v: AV) -> dict:
         return self.heap[v.val[1]]['attrs']
 
+    # ---- carriers of standard-library numbers (decimal.Decimal, decimal.Context): concrete values computed by the library
+    def _to_python(self, v: AV):
+        import decimal as _d
+        if v.kind == 'other' and isinstance(v.val, tuple) and v.val[0] == 'py':
+            return v.val[1]
+        if v.kind == 'other' and isinstance(v.val, tuple) and v.val[0] == 'name' and hasattr(_d, v.val[1]) and v.val[1].startswith('ROUND_'):
+            return getattr(_d, v.val[1])
+        if v.kind == 'none':
+            return None
+        if v.kind in ('int', 'float', 'bool', 'str') and v.val is not None and not isinstance(v.val, tuple):
+            return v.val
+        raise Unknown('a value without a concrete carrier handed to the decimal library')
+
+    def _py(self, r) -> AV:
+        import decimal as _d
+        if isinstance(r, (_d.Decimal, _d.Context)):
+            return AV('other', val=('py', r))
+        return self._from_python(r)
+
+    def _decimal_call(self, fn, args: list, kwargs: dict) -> AV:
+        import decimal as _d
+        try:
+            return self._py(fn(*[self._to_python(a) for a in args], **{k: self._to_python(v) for k, v in kwargs.items()}))
+        except _d.DecimalException as e_:
+            raise AbsRaise(type(e_).__name__, str(e_))
+        except (TypeError, ValueError, OverflowError, ZeroDivisionError) as e_:
+            raise AbsRaise(type(e_).__name__, str(e_))
+
     def _args(self, node: ast.Call, env) -> list:
         out = []
         for a in node.args:
@@ -837,6 +873,8 @@ class Evaluator:
             v = self.ev(node.operand, env)
             if isinstance(node.op, ast.Not):
                 return const_av(not truth(v))
+            if isinstance(node.op, (ast.USub, ast.UAdd)) and v.kind == 'other' and isinstance(v.val, tuple) and v.val[0] == 'py':
+                return self._py(-v.val[1] if isinstance(node.op, ast.USub) else +v.val[1])
             if isinstance(node.op, ast.USub) and v.kind in ('int', 'float'):
                 s = {'neg': 'pos', 'pos': 'neg', 'zero': 'zero', None: None}[v.sign]
                 return replace(v, sign=s, val=(-v.val if v.val is not None else None))
@@ -916,6 +954,19 @@ class Evaluator:
             raise Unknown(f'attribute {node.attr} of {v!r}')
         if isinstance(node, ast.BinOp):
             a, b = self.ev(node.left, env), self.ev(node.right, env)
+            if any(x.kind == 'other' and isinstance(x.val, tuple) and x.val[0] == 'py' for x in (a, b)):
+                import operator as _op
+                import decimal as _d
+                fn_ = {ast.Add: _op.add, ast.Sub: _op.sub, ast.Mult: _op.mul, ast.Div: _op.truediv, ast.FloorDiv: _op.floordiv,
+                       ast.Mod: _op.mod, ast.Pow: _op.pow}.get(type(node.op))
+                if fn_ is None:
+                    raise Unknown('operator on a decimal')
+                try:
+                    return self._py(fn_(self._to_python(a), self._to_python(b)))
+                except _d.DecimalException as e_:
+                    raise AbsRaise(type(e_).__name__, str(e_))
+                except (TypeError, ZeroDivisionError, OverflowError) as e_:
+                    raise AbsRaise(type(e_).__name__, str(e_))
             if isinstance(node.op, ast.BitOr) and self.unbox(a).kind == 'dict' and self.unbox(b).kind == 'dict':
                 a, b = self.unbox(a), self.unbox(b)
                 if a.items is None or b.items is None:
@@ -1057,6 +1108,32 @@ class Evaluator:
             for v_ in node.values:
                 if isinstance(v_, ast.Constant):
                     parts.append(str(v_.value))
+                elif isinstance(v_, ast.FormattedValue) and (v_.format_spec is not None or v_.conversion != -1):
+                    x_ = self.ev(v_.value, env)
+                    spec_ = ''
+                    if v_.format_spec is not None:
+                        sv_ = self.ev(v_.format_spec, env)
+                        if not isinstance(sv_.val, str):
+                            parts = None
+                            break
+                        spec_ = sv_.val
+                    if x_.kind == 'none':
+                        pv_ = None
+                    elif x_.kind in ('str', 'int', 'bool', 'float') and x_.val is not None and not isinstance(x_.val, tuple):
+                        pv_ = x_.val
+                    else:
+                        parts = None
+                        break
+                    if v_.conversion == 114:
+                        pv_ = repr(pv_)
+                    elif v_.conversion == 115:
+                        pv_ = str(pv_)
+                    elif v_.conversion == 97:
+                        pv_ = ascii(pv_)
+                    try:
+                        parts.append(format(pv_, spec_))
+                    except (ValueError, TypeError) as e_:
+                        raise AbsRaise(type(e_).__name__, str(e_))
                 elif isinstance(v_, ast.FormattedValue) and v_.format_spec is None and v_.conversion == -1:
                     x_ = self.ev(v_.value, env)
                     if x_.kind in ('str', 'int', 'bool', 'float') and x_.val is not None and not isinstance(x_.val, tuple):
@@ -1138,6 +1215,16 @@ class Evaluator:
     def call(self, node: ast.Call, env) -> AV:
         f = node.func
         name = f.id if isinstance(f, ast.Name) else None
+        if name in ('float', 'int', 'str', 'abs', 'bool') and len(node.args) == 1 and not node.keywords and name not in env and \
+                not (isinstance(node.args[0], ast.Name) and node.args[0].id == '__arg0__'):
+            v0_ = self.ev(node.args[0], env)
+            if v0_.kind == 'other' and isinstance(v0_.val, tuple) and v0_.val[0] == 'py':
+                try:
+                    return self._py({'float': float, 'int': int, 'str': str, 'abs': abs, 'bool': bool}[name](v0_.val[1]))
+                except (ValueError, TypeError, OverflowError) as e_:
+                    raise AbsRaise(type(e_).__name__, str(e_))
+            # the argument is evaluated once: the conversion itself is done below on the value
+            return self.call(ast.Call(func=f, args=[ast.Name(id='__arg0__', ctx=ast.Load())], keywords=[]), {**env, '__arg0__': v0_})
         if name is not None and name in env and env[name].kind == 'func' and isinstance(env[name].val, tuple) and \
                 env[name].val[0] == 'closure':
             return self.call_closure(env[name].val, [self.ev(a, env) for a in node.args])
@@ -1356,8 +1443,40 @@ class Evaluator:
             v = self.ev(node.args[0], env)
             if v.kind in ('int', 'float'):
                 return replace(v, sign='zero' if v.sign == 'zero' else 'pos' if v.sign else None)
+        if ast.unparse(f) in ('Decimal', 'decimal.Decimal', 'DecimalContext', 'Context', 'decimal.Context') and \
+                not (isinstance(f, ast.Name) and f.id in env):
+            import decimal as _d
+            target_ = _d.Decimal if ast.unparse(f).endswith('Decimal') else _d.Context
+            return self._decimal_call(target_, [self.ev(a, env) for a in node.args], {k.arg: self.ev(k.value, env) for k in node.keywords if k.arg})
+        if isinstance(f, ast.Attribute) and not (isinstance(f.value, ast.Name) and f.value.id in ('self', 'cls', 're', 'datetime', 'math')):
+            try:
+                recv_py_ = self.ev(f.value, env)
+            except (Unknown, AbsRaise):
+                recv_py_ = None
+            if recv_py_ is not None and recv_py_.kind == 'other' and isinstance(recv_py_.val, tuple) and recv_py_.val[0] == 'py' and \
+                    not f.attr.startswith('_') and callable(getattr(recv_py_.val[1], f.attr, None)):
+                return self._decimal_call(getattr(recv_py_.val[1], f.attr), [self.ev(a, env) for a in node.args],
+                                          {k.arg: self.ev(k.value, env) for k in node.keywords if k.arg})
+        if name == 'format' and 1 <= len(node.args) <= 2 and not node.keywords:
+            v0 = self.ev(node.args[0], env)
+            spec_ = self.ev(node.args[1], env) if len(node.args) == 2 else const_av('')
+            if isinstance(spec_.val, str):
+                try:
+                    return const_av(format(self._to_python(v0), spec_.val))
+                except (ValueError, TypeError) as e_:
+                    raise AbsRaise(type(e_).__name__, str(e_))
+            raise Unknown('format with an unknown specification')
+        if name == 'round' and 1 <= len(node.args) <= 2 and not node.keywords:
+            vs_ = [self.ev(a, env) for a in node.args]
+            try:
+                return self._py(round(*[self._to_python(v_) for v_ in vs_]))
+            except (ValueError, TypeError, OverflowError) as e_:
+                raise AbsRaise(type(e_).__name__, str(e_))
         if ast.unparse(f) in ('trunc', 'math.trunc', 'math.floor', 'math.ceil', 'floor', 'ceil') and len(node.args) == 1 and not node.keywords:
             v0 = self.ev(node.args[0], env)
+            if v0.kind == 'other' and isinstance(v0.val, tuple) and v0.val[0] == 'py':
+                import math as _math
+                return self._py(getattr(_math, ast.unparse(f).split('.')[-1])(v0.val[1]))
             if v0.kind in ('int', 'float', 'bool') and isinstance(v0.val, (int, float)):
                 import math as _math
                 try:
@@ -1625,6 +1744,14 @@ class Evaluator:
         raise Unknown(f'{a!r} == {b!r}')
 
     def compare(self, op, a: AV, b: AV, rnode=None, env=None) -> bool:
+        if not isinstance(op, (ast.Is, ast.IsNot, ast.In, ast.NotIn)) and \
+                any(x.kind == 'other' and isinstance(x.val, tuple) and x.val[0] == 'py' for x in (a, b)):
+            import operator as _op
+            fn_ = {ast.Eq: _op.eq, ast.NotEq: _op.ne, ast.Lt: _op.lt, ast.LtE: _op.le, ast.Gt: _op.gt, ast.GtE: _op.ge}[type(op)]
+            try:
+                return bool(fn_(self._to_python(a), self._to_python(b)))
+            except TypeError as e_:
+                raise AbsRaise('TypeError', str(e_))
         if isinstance(op, (ast.Eq, ast.NotEq)):
             r = self.eq(a, b)
             return r if isinstance(op, ast.Eq) else not r
@@ -1673,6 +1800,9 @@ class Evaluator:
             # int/bool: the right operand's class is a subclass overriding the reflected method -> tried first;
             # str/date/None/list: their own method returns NotImplemented -> reflected method of the blank
             return truth(self.call_method('EmptyCell.' + refl[type(op)], [a], b))
+        if a.kind == 'str' and b.kind == 'str' and isinstance(a.val, str) and isinstance(b.val, str):
+            x, y = a.val, b.val
+            return {ast.Lt: x < y, ast.LtE: x <= y, ast.Gt: x > y, ast.GtE: x >= y}[type(op)]
         if a.kind == 'blank':
             a = AV('int', sign='zero', val=0, origin=a.origin)
         if b.kind == 'blank':
